@@ -22,7 +22,7 @@ pub fn model_sizes(n: u32, with_big: bool) -> Vec<u32> {
 /// (n_in, n_out) pairs of the model-level geometry space: the full square up to S, plus every
 /// boundary size paired with every small size (the other dimension <= T).
 pub fn model_pairs(tier: Tier) -> Vec<(u32, u32)> {
-    let (s, t): (u32, u32) = tier.pick((40, 6), (160, 24));
+    let (s, t): (u32, u32) = tier.pick((30, 4), (160, 24));
     model_pairs_st(s, t)
 }
 
@@ -157,7 +157,7 @@ pub fn prop(tier: Tier, seed: u64) -> Prop {
     }));
 
     // ---- (b) direct 1-D: every 8-bit value, boundary values of the wider types
-    let n: u32 = tier.pick(12, 32);
+    let n: u32 = tier.pick(10, 32);
     let mut geos: Vec<(u32, u32)> = vec![];
     for a in 1..=n {
         for b in 1..=n {
@@ -305,7 +305,7 @@ pub fn prop(tier: Tier, seed: u64) -> Prop {
     }));
 
     p.rule = "(a) model: for every geometry (sizes 1..S plus {255..65537}, CROP1, 7 filters, adaptive on/off) the integer tables of both real normalisers are read through the hook and Σk is checked exactly against 2^p so that every constant value is reproduced (decides all 256 / 65536 values); (b) direct 1-D: every (n_in,n_out) up to N and extreme ratios x crops x 14 algorithms x 13 types x back-ends x 2 orientations on images whose line r carries value r (all 256 values for 8-bit, boundary + lcg values for wider types), alpha off and alpha = max with alpha handling on; (c) 2-D shapes incl. SuperSampling m=1,2,3".into();
-    p.bounds = json!({"model_pairs": pairs.len(), "model_square": tier.pick(40, 160), "model_big": BIG, "model_big_other_side_up_to": tier.pick(6, 24), "N": n});
+    p.bounds = json!({"model_pairs": pairs.len(), "model_square": tier.pick(30, 160), "model_big": BIG, "model_big_other_side_up_to": tier.pick(4, 24), "N": n});
     p.assumptions = vec!["a window whose weights sum to zero (sample centre outside every support, only with Interpolation at large down-scales) has no defined value and is excluded".into(), "floats: one f32 ulp".into()];
     p
 }
